@@ -36,6 +36,8 @@ func (s Step) String() string {
 		return fmt.Sprintf("join(r%d<-load of the newest %d entries of r%d)", s.R, s.PC, s.S)
 	case "joinalien":
 		return fmt.Sprintf("cross-key-merges(r%d <-> log written with another link key)", s.R)
+	case "joinrelabelled":
+		return fmt.Sprintf("join(r%d<-copy of r%d + 2 new valid entries, the older of which CLAIMS the hash of r%d's own entry #%d and is filed under its true hash)", s.R, s.R, s.R, s.S)
 	case "joinmislabelled":
 		return fmt.Sprintf("join(r%d<-log object carrying this log's id but holding the entries of ANOTHER log)", s.R)
 	case "joinimpostor":
@@ -53,7 +55,7 @@ func (s Step) String() string {
 // ExpectsError: operations that the library refuses (and that must leave the log as it was). "joinimpostor"
 // may be refused or succeed; see MustNotChange.
 func (s Step) ExpectsError() bool {
-	return s.Op == "denyappend" || s.Op == "joinrejected" || s.Op == "joinalien" || s.Op == "joinimpostor" || s.Op == "joinmislabelled"
+	return s.Op == "denyappend" || s.Op == "joinrejected" || s.Op == "joinalien" || s.Op == "joinimpostor" || s.Op == "joinmislabelled" || s.Op == "joinrelabelled"
 }
 
 // MustNotChange: operations after which the replica must be as before whether or not an error is returned.
@@ -173,7 +175,11 @@ func Gen(seed int64, idx int, o GenOpts) *History {
 		}
 		if o.Failures && len(h.Steps) < n && rng.Intn(7) == 0 {
 			// a refused operation or a fork, followed by ordinary traffic
-			switch rng.Intn(7) {
+			switch rng.Intn(8) {
+			case 7:
+				// a validly signed new entry whose hash FIELD names an entry this replica holds: it may be merged or
+				// refused, but it must not take the place of the held entry
+				h.Steps = append(h.Steps, Step{Op: "joinrelabelled", R: s.R, S: rng.Intn(1000)})
 			case 6:
 				// e.g. NewFromEntryHash(head of another log, LogOptions{ID: this log's id})
 				h.Steps = append(h.Steps, Step{Op: "joinmislabelled", R: s.R})
@@ -637,6 +643,42 @@ func (x *Exec) Do(i int) StepResult {
 			}
 		}
 		_, jerr := l.Join(tmp, -1)
+		return StepResult{Err: jerr}
+	case "joinrelabelled":
+		pool := l.Values().Slice()
+		if len(pool) == 0 {
+			return StepResult{}
+		}
+		victim := pool[s.S%len(pool)]
+		lo := x.W.LogOpts(x.W.LogID)
+		lo.AccessController = nil
+		lo.Entries = l.GetEntries()
+		lo.Heads = l.Heads().Slice()
+		tmp, err := ipfslog.NewLog(x.W.Store.API(), x.W.Idents[x.Writer[s.R]], lo)
+		if err != nil {
+			panic(err)
+		}
+		n1, err := tmp.Append(x.W.Ctx, []byte(fmt.Sprintf("%d.%d/rl%d.1", x.H.Seed, x.H.Idx, i)), nil)
+		if err != nil {
+			return StepResult{Err: err}
+		}
+		n2, err := tmp.Append(x.W.Ctx, []byte(fmt.Sprintf("%d.%d/rl%d.2", x.H.Seed, x.H.Idx, i)), nil)
+		if err != nil {
+			return StepResult{Err: err}
+		}
+		ents := tmp.GetEntries()
+		fake := n1.Copy()
+		fake.SetHash(victim.GetHash())
+		ents.Set(n1.GetHash().String(), fake)
+		lo2 := x.W.LogOpts(x.W.LogID)
+		lo2.AccessController = nil
+		lo2.Entries = ents
+		lo2.Heads = []iface.IPFSLogEntry{n2}
+		src, err := ipfslog.NewLog(x.W.Store.API(), x.W.Idents[x.Writer[s.R]], lo2)
+		if err != nil {
+			panic(err)
+		}
+		_, jerr := l.Join(src, -1)
 		return StepResult{Err: jerr}
 	case "joinmislabelled":
 		lo := x.W.LogOpts(x.W.LogID)
